@@ -148,3 +148,16 @@ func (t *InternalTransport) VerifC17Inject(frame []byte) {
 	t.nInBytes += uint64(len(frame))
 	t.linkService.handleIncomingFrame(frame)
 }
+
+// VerifC17DropQueued empties the send queue of a link service without sending anything (used after
+// a forwarding-pipeline probe whose output is not part of the check).
+func VerifC17DropQueued(l *NDNLPLinkService) (n int) {
+	for {
+		select {
+		case <-l.sendQueue:
+			n++
+		default:
+			return
+		}
+	}
+}
